@@ -852,10 +852,38 @@ func (e *Engine) Run(o Oracle) *Violation {
 			}
 			i++
 		} else if op.Par {
+			// A batch of operations issued at once. An operation with a delay (Ns) is
+			// issued by its own goroutine after sleeping that long on the virtual clock:
+			// operations with the same delay, and router timers due at that instant, wake
+			// up together and race for real.
+			var maxDelay time.Duration
+			var delayed sync.WaitGroup
+			var execMu sync.Mutex
 			for i < len(e.C.Ops) && e.C.Ops[i].Par && e.C.Ops[i].K != "advance" {
 				st.OpIdx = append(st.OpIdx, i)
-				e.execOp(i, &e.C.Ops[i], st)
+				pop, pi := &e.C.Ops[i], i
+				if d := time.Duration(pop.Ns); d > 0 {
+					if d > maxDelay {
+						maxDelay = d
+					}
+					delayed.Add(1)
+					go func() {
+						defer delayed.Done()
+						time.Sleep(d)
+						execMu.Lock()
+						e.execOp(pi, pop, st)
+						execMu.Unlock()
+					}()
+				} else {
+					execMu.Lock()
+					e.execOp(i, pop, st)
+					execMu.Unlock()
+				}
 				i++
+			}
+			if maxDelay > 0 {
+				time.Sleep(maxDelay)
+				delayed.Wait()
 			}
 		} else {
 			st.OpIdx = []int{i}
